@@ -16,6 +16,12 @@ for m, (path, tree, src) in P.mods.items():
             consts += [f'{m}.{t.id}' for t in s.targets if isinstance(t, ast.Name)]
         elif isinstance(s, ast.AnnAssign) and isinstance(s.target, ast.Name):
             consts.append(f'{m}.{s.target.id}')
+for (m, c), cls in P.classes.items():
+    for s in cls.body:
+        if isinstance(s, ast.Assign):
+            consts += [f'{m}.{c}.{t.id}' for t in s.targets if isinstance(t, ast.Name)]
+        elif isinstance(s, ast.AnnAssign) and isinstance(s.target, ast.Name):
+            consts.append(f'{m}.{c}.{s.target.id}')
 import ast as _ast
 alpha = {}
 for q, f in PC.funcs.items():
